@@ -392,7 +392,12 @@ def resubscription_case(case: dict, res: UnitResult, seed: int, idx: int, desc: 
             o = build(case, lab, src)
         first, second = lab.observer("first"), lab.observer("second")
         if twice:
-            lab.at(SUB_AT, lambda: first.subscribe_to(o))
+            if P.get("sched") == "sub":
+                # the first subscription hands down ANOTHER scheduler object (working, frozen clock): an operator without a
+                # scheduler of its own must use, for every subscription, the scheduler of THAT subscription
+                lab.at(SUB_AT, lambda: first.subscribe_to(o, scheduler=T.frozen_scheduler(lab)))
+            else:
+                lab.at(SUB_AT, lambda: first.subscribe_to(o))
             lab.at(T2 - 1.0, first.dispose)
 
         def sub2() -> None:
